@@ -59,6 +59,9 @@ pub struct History {
     pub goaway_at: Option<usize>,
     /// the server application itself calls shutdown(n) once it has been handed `at` requests: (at, n)
     pub own_shutdown: Option<(usize, usize)>,
+    /// the server sends grease (the builder's default) and the peer grants exactly the three unidirectional streams
+    /// RFC 9114 6.2 asks for, never more: the server's fourth (grease) stream stays waiting for credit for ever
+    pub grease_starved: bool,
 }
 
 #[derive(Default, Debug, Clone)]
@@ -160,7 +163,7 @@ async fn handler(r: Resolver, req: Req, sig: Signal, sig2: Signal, ended: Rc<Cel
 }
 
 async fn server_app(net: Net, h: History, o: Shared<Obs>, sigs: Vec<Signal>, ended: Rc<Cell<i64>>, sp: Spawner) {
-    let mut conn: ServerConn = match h3::server::builder().send_grease(false).build(net.conn(Side::Server)).await {
+    let mut conn: ServerConn = match h3::server::builder().send_grease(h.grease_starved).build(net.conn(Side::Server)).await {
         Ok(c) => c,
         Err(e) => {
             o.borrow_mut().accept_end = Some(Err(conn_info(&e)));
@@ -204,7 +207,7 @@ async fn server_app(net: Net, h: History, o: Shared<Obs>, sigs: Vec<Signal>, end
 }
 
 fn hist_json(h: &History) -> Value {
-    json!({"reqs": h.reqs.iter().map(|r| format!("{:?}{}", r.ending, if r.late { "+late" } else { "" })).collect::<Vec<_>>(), "goaway_at": h.goaway_at, "own_shutdown": h.own_shutdown.map(|(a, n)| vec![a, n])})
+    json!({"reqs": h.reqs.iter().map(|r| format!("{:?}{}", r.ending, if r.late { "+late" } else { "" })).collect::<Vec<_>>(), "goaway_at": h.goaway_at, "own_shutdown": h.own_shutdown.map(|(a, n)| vec![a, n]), "grease_starved": h.grease_starved})
 }
 
 pub fn run_history(h: &History, style: Style, sched: &[u16], credit: u64, ctx: &mut Ctx) -> Verdict {
@@ -213,6 +216,11 @@ pub fn run_history(h: &History, style: Style, sched: &[u16], credit: u64, ctx: &
     let net = Net::new();
     net.set_raw(Side::Client);
     net.lock().default_credit[Side::Server.idx()] = credit;
+    if h.grease_starved {
+        let mut g = net.lock();
+        g.ends[Side::Server.idx()].stream_credit[1] = 3;
+        g.ends[Side::Server.idx()].grants_frozen = true;
+    }
     let o: Shared<Obs> = shared(Obs::default());
     let ended = Rc::new(Cell::new(0i64));
     let sigs: Vec<Signal> = (0..2 * h.reqs.len().max(1)).map(|_| Signal::new()).collect();
@@ -318,6 +326,9 @@ pub fn run_history(h: &History, style: Style, sched: &[u16], credit: u64, ctx: &
     if h.goaway_at.is_some() && goaway_id % 4 != 0 {
         ctx.class("peer_goaway_with_a_push_id_that_is_no_stream_id");
     }
+    if h.grease_starved {
+        ctx.class("grease_stream_starved_of_credit");
+    }
     if let Some((at, n)) = h.own_shutdown {
         ctx.class("own_shutdown");
         if n >= 1 && obs.accepted as usize > at {
@@ -353,15 +364,17 @@ fn exhaustive(ctx: &mut Ctx, shard: usize, nshards: usize) -> Verdict {
                 if idx % nshards != shard {
                     continue;
                 }
-                let h = History { reqs: reqs.clone(), goaway_at: g, own_shutdown: None };
+                let h = History { reqs: reqs.clone(), goaway_at: g, own_shutdown: None, grease_starved: false };
                 run_history(&h, Style::Eager, &[], UNLIMITED, ctx)?;
                 let cells = prf_cells(idx as u64, 120);
                 run_history(&h, Style::Random, &cells, UNLIMITED, ctx)?;
                 run_history(&h, Style::Random, &cells, 2, ctx)?;
+                // the same history against a server that sends grease and never gets credit for its grease stream
+                run_history(&History { grease_starved: true, ..h.clone() }, if idx % 2 == 0 { Style::Eager } else { Style::Random }, &cells, UNLIMITED, ctx)?;
                 // the server's own graceful shutdown in the same history: after 0..n requests, allowing 0..2 more
                 for at in 0..=n {
                     for more in 0..=2usize {
-                        let h = History { reqs: reqs.clone(), goaway_at: g, own_shutdown: Some((at, more)) };
+                        let h = History { reqs: reqs.clone(), goaway_at: g, own_shutdown: Some((at, more)), grease_starved: (at + more + idx) % 5 == 0 };
                         run_history(&h, if (at + more) % 2 == 0 { Style::Eager } else { Style::Random }, &cells, UNLIMITED, ctx)?;
                     }
                 }
@@ -369,7 +382,7 @@ fn exhaustive(ctx: &mut Ctx, shard: usize, nshards: usize) -> Verdict {
         }
     }
     if shard == 0 {
-        ctx.subspace("all histories of <= 3 requests x 12 (ending, immediate/late) options x GOAWAY position (incl. none) x (2 schedules, the random one also with 2 bytes of send credit; the server's own shutdown(0..2) after 0..n requests)", idx as u64 * 3);
+        ctx.subspace("all histories of <= 3 requests x 12 (ending, immediate/late) options x GOAWAY position (incl. none) x (2 schedules, the random one also with 2 bytes of send credit; a server that sends grease while the peer grants exactly three unidirectional streams; the server's own shutdown(0..2) after 0..n requests)", idx as u64 * 4);
     }
     Ok(())
 }
@@ -394,7 +407,8 @@ fn run_tape(tape: &[u16], ctx: &mut Ctx) -> Verdict {
     };
     let sched: Vec<u16> = tape[t.position().min(tape.len())..].to_vec();
     let own_shutdown = if t.chance(1, 3) { Some((t.pick(n + 1), t.pick(4))) } else { None };
-    run_history(&History { reqs, goaway_at, own_shutdown }, style, &sched, credit, ctx)
+    let grease_starved = t.chance(1, 4);
+    run_history(&History { reqs, goaway_at, own_shutdown, grease_starved }, style, &sched, credit, ctx)
 }
 
 fn run_direct(d: &Value, ctx: &mut Ctx) -> Verdict {
@@ -420,5 +434,6 @@ fn run_direct(d: &Value, ctx: &mut Ctx) -> Verdict {
     };
     let sched: Vec<u16> = d["sched"].as_array().map(|a| a.iter().map(|x| x.as_u64().unwrap_or(0) as u16).collect()).unwrap_or_default();
     let own_shutdown = h["own_shutdown"].as_array().map(|a| (a[0].as_u64().unwrap_or(0) as usize, a[1].as_u64().unwrap_or(0) as usize));
-    run_history(&History { reqs, goaway_at, own_shutdown }, style, &sched, d["credit"].as_i64().map(|c| if c < 0 { UNLIMITED } else { c as u64 }).unwrap_or(UNLIMITED), ctx)
+    let grease_starved = h["grease_starved"].as_bool().unwrap_or(false);
+    run_history(&History { reqs, goaway_at, own_shutdown, grease_starved }, style, &sched, d["credit"].as_i64().map(|c| if c < 0 { UNLIMITED } else { c as u64 }).unwrap_or(UNLIMITED), ctx)
 }
